@@ -54,6 +54,8 @@ type c12In struct {
 	Tx    mTx       `json:"tx"`
 	Quote mQuote    `json:"quote"`
 	Steps []c12Step `json:"steps"` // after the last step the supplier reports exhaustion for ever
+	// DupOutpoint: some supplier UTXO repeats an outpoint of a prior input or of an earlier batch (coverage only)
+	DupOutpoint bool `json:"dup_outpoint,omitempty"`
 }
 
 // c12Call is one recorded supplier call.
@@ -396,6 +398,24 @@ func c12Make(r *prng.R) *c12In {
 			}
 			for i := 0; i < n; i++ {
 				u := c12UTXO{TxID: r.Bytes(32), Vout: gen.U32(r), Script: gen.P2PKH(r.Bytes(20))}
+				if r.Chance(1, 8) {
+					// the supplier hands out an outpoint the transaction already spends (a coin the caller
+					// added by hand before Fund, or one of an earlier batch): Fund consumes what it is given
+					var seen [][2]any
+					for _, p := range in.Tx.Ins {
+						seen = append(seen, [2]any{[]byte(p.TxID), p.Vout})
+					}
+					for _, ps := range in.Steps {
+						for _, pu := range ps.UTXOs {
+							seen = append(seen, [2]any{[]byte(pu.TxID), pu.Vout})
+						}
+					}
+					if len(seen) > 0 {
+						o := seen[r.Intn(len(seen))]
+						u.TxID, u.Vout = append([]byte{}, o[0].([]byte)...), o[1].(uint32)
+						in.DupOutpoint = true
+					}
+				}
 				if r.Chance(1, 25) { // a coin whose script the size estimate does not support (pay-to-public-key, anything else)
 					u.Script = prng.Pick(r, [][]byte{append(append([]byte{33, 0x02}, r.Bytes(32)...), 0xac), {0x51}, append([]byte{0xa9, 0x14}, append(r.Bytes(20), 0x87)...)})
 				}
@@ -633,6 +653,9 @@ func c12Judge(c *mon.Ctx, in *c12In) {
 			c.Count("batch:empty")
 		default:
 			c.Count("batch:size=" + strconv.Itoa(n))
+		}
+		if in.DupOutpoint && len(cl.Batch) > 0 {
+			c.Count("batch:delivered-in-a-history-with-a-repeated-outpoint")
 		}
 		for _, u := range cl.Batch {
 			model.Ins = append(model.Ins, refmoney.In{PrevScript: u.Script, Sats: u.Value})
